@@ -26,6 +26,12 @@ def generate(tier, rng):
     c.add(e)
     for op in ('collect', 'rev', 'count'):
         c.op(e.id, op, op + '/clash')
+    e = itercorpus.make_enum('c04raw', 'r#type', 4, 'middle', derives=['EnumIter', 'EnumCount'], feats=['iter', 'count'])
+    e.extra['no_noise'] = True
+    e.extra['shape'] = 'enum named by a raw identifier'
+    c.add(e)
+    for op in ('collect', 'rev', 'count'):
+        c.op(e.id, op, op + '/raw-name')
     # one large enum (more variants than a u8 can count)
     e = itercorpus.make_enum('c04big', 'EnC04big', 300, 'alternating', derives=['EnumIter', 'EnumCount'], feats=['iter', 'count'])
     c.add(e)
